@@ -147,7 +147,16 @@ impl TlsState {
         }
         self.decrypted.extend_from_slice(&plain);
         // 3. the application data: buffered by rustls until the handshake allows sending it
-        if !self.script_written {
+        if let (false, Some(k)) = (self.script_written, GOODBYE_AFTER.with(|g| g.get())) {
+            // a client that leaves early: nothing is written before the TLS handshake is done, then
+            // the first k bytes of the script, then close_notify
+            if !self.client.is_handshaking() {
+                let s = std::mem::take(&mut self.script);
+                let _ = self.client.writer().write_all(&s[..k.min(s.len())]);
+                self.client.send_close_notify();
+                self.script_written = true;
+            }
+        } else if !self.script_written {
             let s = std::mem::take(&mut self.script);
             if self.part_ends.is_empty() {
                 let _ = self.client.writer().write_all(&s);
@@ -775,6 +784,8 @@ thread_local! {
     static POST_TLS_WITHOUT_SSL_BIT: std::cell::Cell<bool> = std::cell::Cell::new(false);
     /// the handshake response sent inside TLS uses the pre-4.1 (3.20) layout
     static INNER_320: std::cell::Cell<bool> = std::cell::Cell::new(false);
+    /// the client says goodbye (close_notify, then end of stream) after this many bytes of its script
+    static GOODBYE_AFTER: std::cell::Cell<Option<usize>> = std::cell::Cell::new(None);
     /// commands to send inside TLS instead of the fixed script (TlsWalks)
     static SCRIPT_CMDS: RefCell<Option<Vec<ClientCmd>>> = RefCell::new(None);
 }
@@ -1087,6 +1098,65 @@ impl Family for TlsReplySizes {
     }
 }
 
+/// a TLS client that says goodbye properly (close_notify, then end of stream) at every kind of
+/// position: right after the TLS handshake and before the login packet, inside the login packet, at
+/// the end of it, inside and at the end of the commands behind it. run_on returns Ok exactly when
+/// the goodbye comes at a command boundary after a completed login.
+struct TlsGoodbyes;
+impl TlsGoodbyes {
+    fn positions() -> Vec<(usize, bool)> {
+        let (bytes, conv, _) = script();
+        let ends = conv.stream().ends;
+        let mut v = vec![(0usize, false), (1, false), (ends[0] - 1, false)];
+        for (i, e) in ends.iter().enumerate() {
+            // a boundary behind the login; the script's last command is QUIT
+            v.push((*e, true));
+            if i + 1 < ends.len() {
+                v.push((*e + 1, false));
+                v.push((*e + 4, false));
+            }
+        }
+        v.retain(|(p, _)| *p <= bytes.len());
+        v
+    }
+}
+impl Family for TlsGoodbyes {
+    fn name(&self) -> String {
+        "close-notify-at-every-kind-of-position".into()
+    }
+    fn len(&self) -> u64 {
+        Self::positions().len() as u64 * 2
+    }
+    fn run(&self, idx: u64, st: &mut Stats) -> Result<(), Violation> {
+        let (k, boundary) = Self::positions()[(idx / 2) as usize];
+        let uniform = if idx % 2 == 0 { usize::MAX } else { 7 };
+        st.nontrivial += 1;
+        st.bump("tls_goodbyes");
+        GOODBYE_AFTER.with(|g| g.set(Some(k)));
+        let o = run_tls(Some(pki().server_plain.clone()), false, vec![], uniform);
+        GOODBYE_AFTER.with(|g| g.set(None));
+        st.transitions += o.st.reads as u64;
+        let what = format!("close_notify after {} bytes of the client's MySQL stream ({}), reads of at most {}", k, if k == 0 { "before the login packet" } else if boundary { "a command boundary" } else { "inside a packet" }, if uniform == usize::MAX { 0 } else { uniform });
+        if let ConnResult::Panic(l, m) = &o.res {
+            return Err(Violation::new(panic_key(l, m), format!("{}: run_on panicked at {}: {}", what, l, m)));
+        }
+        if o.st.hang {
+            return Err(Violation::new("hang", format!("{}: the server kept reading after the client had said goodbye", what)));
+        }
+        if boundary && !o.res.is_ok() {
+            return Err(Violation::new("clean-goodbye-is-an-error", format!("{}: run_on returned {}", what, o.res.short())));
+        }
+        if !boundary && o.res.is_ok() {
+            return Err(Violation::new("early-goodbye-is-ok", format!("{}: run_on returned Ok although the connection ended {}", what, if k == 0 { "before the handshake completed" } else { "inside a packet" })));
+        }
+        Ok(())
+    }
+    fn describe(&self, idx: u64) -> J {
+        let (k, boundary) = Self::positions()[(idx / 2) as usize];
+        json!({"close_notify_after_script_bytes": k, "at_a_command_boundary_behind_the_login": boundary, "uniform_read": if idx % 2 == 0 { 0 } else { 7 }})
+    }
+}
+
 pub fn build(quick: bool) -> Check {
     let mut families: Vec<Box<dyn Family>> = Vec::new();
     for cc in [false, true] {
@@ -1112,13 +1182,14 @@ pub fn build(quick: bool) -> Check {
         families.push(Box::new(Tls12Splits { positions: split_positions(&stream, quick), client_cert: cc }));
     }
     families.push(Box::new(NoConfig { base: baseline(false) }));
+    families.push(Box::new(TlsGoodbyes));
     families.push(Box::new(TlsReplySizes::new(quick)));
     families.push(Box::new(TlsWalks { depth: 3 }));
     families.push(Box::new(TlsWalks { depth: if quick { 4 } else { 5 } }));
     Check {
         id: "C18",
         level: "model_checking",
-        rule: "a live rustls client inside the transport: SSLRequest (plaintext) immediately followed by the ClientHello, then, once the server's flight arrived, Finished (+ client certificate) coalesced with the encrypted HandshakeResponse41 and six pipelined commands, among them a 20000-byte query (several inbound TLS records) answered by a resultset with a 40000-byte cell and 250 rows (115 KB: several outbound records, more than rustls buffers unsent). Schedules: every single cut position of the whole client->server stream (quick: every position of the first 1600 bytes and within 6 bytes of each TLS record header, every 13th elsewhere), every pair of cut positions within SSLRequest+ClientHello (thorough: every pair within the first 1100 bytes), uniform read sizes 1..64; with and without a client certificate; the single cuts again with a TLS 1.2 client; ClientHello sizes (padded with ALPN names) swept across 3.6-4.2 KB, 7.8-8.3 KB, 15.9-16.5 KB and up to 60 KB, coalesced with the SSL request or not; SSL requests in the pre-4.1 layout (naming another user in the clear) and connection-phase sequence ids other than 1, 2; ClientHello records with legacy versions 0x0300..0x0303 and a handshake response inside TLS that does not repeat CLIENT_SSL; the client's stream ending (without close_notify) at every such position of a TLS 1.3 and a TLS 1.2 session - with all messages in one burst of records and with one record per message; Ok is only acceptable exactly between two TLS records; each transport write of a TLS session failing once with Interrupted / WouldBlock, with an accepting and a rejecting shim; plus a TLS-requesting client against a shim without TLS configuration under every cut of its first flight. Plus every history of 3-4 (thorough: 5) commands of every kind (PREPARE, long data, EXECUTE, CLOSE, queries, PING) inside a TLS session under whole, 7- and 61-byte reads; replies of every size within -220..+60 bytes of 16 KiB and 32 KiB (thorough: 4..128 KiB) inside TLS; a handshake response inside TLS in the pre-4.1 layout. Oracle: user name and certificate chain at after_authentication, callback log = script, every server byte after the greeting lies in a well-formed TLS record the client accepts, decrypted replies decode strictly with the right sequence ids, run_on returns Ok; no-config case: Err and no callback.".into(),
+        rule: "a live rustls client inside the transport: SSLRequest (plaintext) immediately followed by the ClientHello, then, once the server's flight arrived, Finished (+ client certificate) coalesced with the encrypted HandshakeResponse41 and six pipelined commands, among them a 20000-byte query (several inbound TLS records) answered by a resultset with a 40000-byte cell and 250 rows (115 KB: several outbound records, more than rustls buffers unsent). Schedules: every single cut position of the whole client->server stream (quick: every position of the first 1600 bytes and within 6 bytes of each TLS record header, every 13th elsewhere), every pair of cut positions within SSLRequest+ClientHello (thorough: every pair within the first 1100 bytes), uniform read sizes 1..64; with and without a client certificate; the single cuts again with a TLS 1.2 client; ClientHello sizes (padded with ALPN names) swept across 3.6-4.2 KB, 7.8-8.3 KB, 15.9-16.5 KB and up to 60 KB, coalesced with the SSL request or not; SSL requests in the pre-4.1 layout (naming another user in the clear) and connection-phase sequence ids other than 1, 2; ClientHello records with legacy versions 0x0300..0x0303 and a handshake response inside TLS that does not repeat CLIENT_SSL; the client's stream ending (without close_notify) at every such position of a TLS 1.3 and a TLS 1.2 session - with all messages in one burst of records and with one record per message; Ok is only acceptable exactly between two TLS records; each transport write of a TLS session failing once with Interrupted / WouldBlock, with an accepting and a rejecting shim; plus a TLS-requesting client against a shim without TLS configuration under every cut of its first flight. Plus every history of 3-4 (thorough: 5) commands of every kind (PREPARE, long data, EXECUTE, CLOSE, queries, PING) inside a TLS session under whole, 7- and 61-byte reads; replies of every size within -220..+60 bytes of 16 KiB and 32 KiB (thorough: 4..128 KiB) inside TLS; a handshake response inside TLS in the pre-4.1 layout; a client that sends close_notify before the login packet, inside packets and at every command boundary (Ok exactly at boundaries behind the login). Oracle: user name and certificate chain at after_authentication, callback log = script, every server byte after the greeting lies in a well-formed TLS record the client accepts, decrypted replies decode strictly with the right sequence ids, run_on returns Ok; no-config case: Err and no callback.".into(),
         assumptions: vec![
             "ring's randomness is not owned: handshake bytes differ between runs and with a client certificate the stream length varies by a byte or two; cut positions are taken from the stream actually produced, the verdict does not depend on the random values".into(),
             "flush behaviour is C12's subject; here written bytes are visible to the client at once".into(),
@@ -1127,6 +1198,6 @@ pub fn build(quick: bool) -> Check {
         exhaustive: true,
         caps_hit: vec![],
         families,
-        required: vec!["tls_walks", "tls_reply_sizes", "tls_client_quirks", "tls_eof_inside_a_record", "tls_write_faults", "ssl_request_variants", "client_hello_beyond_4096_bytes", "client_hello_in_two_records", "tls12_handshakes", "splits_inside_client_hello", "splits_inside_ssl_request", "ssl_request_coalesced_with_client_hello", "client_chains_delivered", "refusals", "tls_records_from_server"],
+        required: vec!["tls_walks", "tls_goodbyes", "tls_reply_sizes", "tls_client_quirks", "tls_eof_inside_a_record", "tls_write_faults", "ssl_request_variants", "client_hello_beyond_4096_bytes", "client_hello_in_two_records", "tls12_handshakes", "splits_inside_client_hello", "splits_inside_ssl_request", "ssl_request_coalesced_with_client_hello", "client_chains_delivered", "refusals", "tls_records_from_server"],
     }
 }
